@@ -94,10 +94,15 @@ def gen_case(rng, tier, params=None):
     quick = tier == "quick"
     cfg = rng.fork("cfg")
     fam = cfg.weighted([("rand", 4), ("struct", 3), ("irred", 3),
-                        ("src", 2 if focus == "C15" else 0.7), ("bc", 1.5 if focus == "C15" else 0.5)])
+                        ("src", 2 if focus == "C15" else 0.7), ("bc", 1.5 if focus == "C15" else 0.5),
+                        ("bcref", 1.5 if focus == "C15" else 0.4)])
     nmax = 10 if quick else 16
     n = cfg.randint(3, nmax)
-    if fam in ("src", "bc"):
+    if fam == "bcref":
+        from sim import stdcorpus
+        wl = {"kind": "bcref", "ref": cfg.choice(stdcorpus.list_refs(300 if quick else 1000))}
+        style = "frontend"
+    elif fam in ("src", "bc"):
         from sim import proggen
         wl = {"kind": fam, "source": proggen.gen_program(rng.fork("prog"), size=cfg.randint(3, 12))}
         style = "frontend"
